@@ -272,6 +272,14 @@ class World:
 
     def vector_at(self, V, P):
         """value of a right-hand-side vector at cell P"""
+        a0 = V.cur if isinstance(V, Box) else V
+        if isinstance(a0, Arr) and a0.label and a0.label[0] == 'veclin' and not (isinstance(V, Box) and V.log):
+            s = ZERO
+            for c, comp in a0.label[1]:
+                s = s + c * self.vector_at(comp, P)
+            return s
+        if isinstance(a0, Arr) and a0.label and a0.label[0] == 'flatvec' and not (isinstance(V, Box) and V.log):
+            return a0.label[1](self.full_shape()).at(P)
         if isinstance(V, Box):
             scat = [w for w in V.log if w[0][0] == 'cellscatter']
             if scat or (V.cur.label and V.cur.label[0] == 'scattered'):
